@@ -18,6 +18,7 @@ def run(check, ctx):
     foreign_handles(check, repo)
     handle_pairing(check, repo, ctx.cdb)
     rawlib_arity(check, repo, ctx.cdb)
+    strxor_buffer_rows(check, repo)
     ffi_argument_lifetime(check, repo)
     buffer_request_flags(check, repo)
     # ---- raw pointers taken with .get() must not be held across a re-binding of the owner -------------
@@ -364,6 +365,51 @@ def rawlib_arity(check, repo, cdb):
                          cls, cname, len(calls), ",".join(sorted(set(c[0] for c in calls)))),
                      expected="every native call of the point layer matches the prototype of the library of the object's curve")
     check.count("point_class_curve_pairs", nrows)
+
+
+def strxor_buffer_rows(check, repo):
+    """strxor / strxor_c hand the native loop ONE length for all their buffers: the call is reached only when both terms
+    (and the output buffer, when given) have exactly that length - with and without output=, which take different
+    paths through the guards.  Otherwise the kernel reads or writes past the shorter buffer."""
+    from ..absint import Interp
+    from ..absstate import State
+    SX = "Crypto.Util.strxor"
+    mod = repo.module(SX)
+    wrong = []
+    n = 0
+    for fname in ("strxor", "strxor_c"):
+        fn = repo.func(mod, fname)
+        for l1 in (0, 1, 16):
+            for l2 in ((l1, max(0, l1 - 1), l1 + 1, 0) if fname == "strxor" else (None,)):
+                for lo in (None, l1, max(0, l1 - 1), l1 + 3):
+                    seen = []
+
+                    def f(i, a, kw, st, node, seen=seen):
+                        seen.append([len(x) if isinstance(x, (bytes, bytearray)) else x for x in a])
+                        return 0
+                    it = Interp(repo, max_depth=3, extra_models={"Crypto.Util._raw_api.create_string_buffer": lambda i, a, kw, st, node: bytearray(a[0]) if a and isinstance(a[0], int) else None,
+                                                                 "Crypto.Util._raw_api.get_raw_buffer": lambda i, a, kw, st, node: bytes(a[0]) if a and isinstance(a[0], (bytes, bytearray)) else None,
+                                                                 "Crypto.Util._raw_api.is_writeable_buffer": lambda i, a, kw, st, node: isinstance(a[0], bytearray)})
+                    it.ffi_models = {"strxor": f, "strxor_c": f}
+                    args = {"term1": bytes(l1), "term2": bytes(l2), "output": None if lo is None else bytearray(lo)} if fname == "strxor" else \
+                        {"term": bytes(l1), "c": 7, "output": None if lo is None else bytearray(lo)}
+                    res = it.run(mod, fn, args)
+                    n += 1
+                    legal = (l2 is None or l2 == l1) and (lo is None or lo == l1)
+                    if legal:
+                        if not seen or res.raises():
+                            wrong.append("%s(%d bytes%s%s): refused (%s)" % (fname, l1, "" if l2 is None else ", %d bytes" % l2, "" if lo is None else ", output of %d" % lo, res.raise_classes()))
+                    else:
+                        if seen:
+                            a = seen[0]
+                            wrong.append("%s(%d bytes%s%s) reaches the native loop with buffers of %s bytes and length %s" % (
+                                fname, l1, "" if l2 is None else ", %d bytes" % l2, "" if lo is None else ", output of %d" % lo, [x for x in a[:-1] if not isinstance(x, int) or True][:3], a[-1]))
+                        elif set(res.raise_classes()) - {"ValueError"}:
+                            wrong.append("%s: unequal lengths raise %s" % (fname, res.raise_classes()))
+    fn = repo.func(mod, "strxor")
+    check.ob("F", "F|buffers|strxor", not wrong, mod.path, fn.lineno,
+             extracted=("%d of %d rows differ: " % (len(wrong), n) + "; ".join(wrong[:3])) if wrong else "%d (term, term, output) length combinations: the native loop is reached only with three buffers of the length it is given" % n,
+             expected="unsupported lengths are reported as ValueError before the native call (no read or write past a caller's buffer)")
 
 
 BYTES_PRODUCERS = ("long_to_bytes", "bytes", "tobytes", "bchr", "to_bytes", "join", "pack", "b", "get_random_bytes", "digest")
